@@ -58,7 +58,7 @@ Update(keys, d)  == ~Fresh /\ ValidUpdate(St, keys, d) /\ Become(GLUpdate(St, ke
 DoRemove(v)      == ~Fresh /\ ValidRemove(St, v) /\ Become(GLRemove(St, v), "remove", <<v>>)
 Pop(i)           == ~Fresh /\ ValidPop(St, i) /\ Become(GLPop(St, i), "pop", <<i>>)
 Sort             == ~Fresh /\ order # <<>> /\ Become(GLSort(St, StrSet), "sort", <<>>)
-SortBy(p)        == ~Fresh /\ ValidSortBy(St, p) /\ p # order /\ Become(GLSortBy(St, p), "sort_by", <<p>>)
+SortBy(p)        == ~Fresh /\ ValidSortBy(St, p) /\ Become(GLSortBy(St, p), "sort_by", <<p>>)      \* (p = order allowed: still a new object)
 ReplaceLeader(l, m) == ~Fresh /\ ValidReplaceLeader(St, l, m)
                        /\ Become(GLReplaceLeader(St, l, m), "replace_group_leader", <<l, m>>)
 
